@@ -48,7 +48,7 @@ PROPS = {
     "C05": dict(
         props="props/C05.v",
         streams=[dict(name="core-c05")],
-        decisive_codes=[2],
+        decisive_codes=[1, 2],
         modelled='generator/generator.go Build/Assign/callExisting/shouldCreateSubMethod/createSubMethod/buildMethod/convertTo/buildMethods, generator/setup.go, generator/validate.go, builder/{basic,pointer,list,map,struct,skipcopy}.go, xtype/type.go (TypeOf flags, FindField, asID), namer.Name (Gen.v, Plan.v, Eval.v); BuildSteps order and every Matches predicate, isEnum, findUnderlyingExtendMapping, shouldCheckAgainstZero are regenerated from the source (Extracted.v); not yet in the model (class D_UNMODELLED): custom functions, enums, error results, contexts, default constructors, struct-method sources',
         assumptions=['the meaning of each emitted code template (make, range, &x, nil guards) is assigned by Eval.v and validated only by executing the compiled output', 'values are finite and acyclic; map key conversions are injective on the generated values', "the harness' own reading of the boolean settings lines (the C12 model covers the settings parser)"],
     ),
